@@ -472,7 +472,7 @@ pub fn read(cssout: &str) -> Result<Vec<Blk>, String> {
 
 // ---- generator -------------------------------------------------------------------------------------
 
-const SELS_IN_RULE: &[&str] = &["b", "&", "& c", "&-s", "&.k", "d &", "b, c", "& + &", ":not(&)", "&:hover, e", "& > b, c &", "b &-s"];
+const SELS_IN_RULE: &[&str] = &["b", "&", "& c", "&-s", "&.k", "d &", "b, c", "& + &", ":not(&)", "&:hover, e", "& > b, c &", "b &-s", "c, & + &", "& & &, d, &.k"];
 const SELS_TOP: &[&str] = &["b", "b, c"];
 const AT_ROOT_Q: &[Option<&str>] = &[None, Some("(without: media)"), Some("(with: rule)"), Some("(without: all)"), Some("(without: supports)"), Some("(with: media)"), Some("(without: rule)")];
 
@@ -604,9 +604,9 @@ fn run_trees(ctx: &Ctx, sub: &'static str, bound: &str, trees: &[Vec<N>]) {
 
 pub fn run(ctx: &Ctx) {
     // depth 2, full alphabet, sibling pairs
-    let g2 = Gen { sels: 12, queries: 7, pairs: true };
+    let g2 = Gen { sels: 14, queries: 7, pairs: true };
     let t2 = g2.lists(2, false, 0, false);
-    run_trees(ctx, "depth2", "all trees of depth <= 2 below the root (style rules with 12 selector forms incl. `&` alone / suffix / compound / repeated / in :not() / in lists, nested properties with and without a value, @media, @supports, unknown at-rule, @at-root with 7 queries, declarations), each child list alone and with a declaration / rule sibling before, after and around", &t2);
+    run_trees(ctx, "depth2", "all trees of depth <= 2 below the root (style rules with 14 selector forms incl. `&` alone / suffix / compound / repeated / repeated inside a list / in :not() / in lists, nested properties with and without a value, @media, @supports, unknown at-rule, @at-root with 7 queries, declarations), each child list alone and with a declaration / rule sibling before, after and around", &t2);
     // depth 3, reduced alphabets
     let g3 = Gen { sels: ctx.pick(5, 12), queries: 7, pairs: false };
     let t3 = g3.lists(3, false, 0, false);
@@ -652,6 +652,51 @@ pub fn run(ctx: &Ctx) {
             }
         }
         run_trees(ctx, "at-root-nesting", "7 x 7 @at-root queries nested directly in each other x 4 inner bodies x 6 kinds of statements after the inner one x with / without a rule before x 4 enclosing contexts", &trees);
+    }
+    {
+        // three levels of at-rules around a style rule, with a later sibling: a parent that already has
+        // a following sibling is copied where it stands (inside the outer at-rule), not at the root
+        let leaf = |sel: &str| N::Rule(sel.to_string(), vec![N::Decl("p".into(), "v".into())]);
+        let wrap = |kind: usize, body: Vec<N>| -> N {
+            match kind {
+                0 => N::Media("(m)".into(), body),
+                1 => N::Supports("(s: t)".into(), body),
+                _ => N::Unknown("x y".into(), body),
+            }
+        };
+        let inners: Vec<N> = vec![
+            N::Media("(n)".into(), vec![N::Decl("q".into(), "w".into())]),
+            N::Supports("(u: v)".into(), vec![N::Decl("q".into(), "w".into())]),
+            N::Unknown("z w".into(), vec![N::Decl("q".into(), "w".into())]),
+            N::AtRoot(Some("(without: media)".into()), vec![N::Decl("q".into(), "w".into())]),
+            N::AtRoot(Some("(without: supports)".into()), vec![N::Decl("q".into(), "w".into())]),
+            N::AtRoot(Some("(with: rule)".into()), vec![N::Decl("q".into(), "w".into())]),
+            N::Rule("&-n".into(), vec![N::Media("(n)".into(), vec![N::Decl("q".into(), "w".into())])]),
+        ];
+        let laters: Vec<Vec<N>> = vec![vec![leaf("g")], vec![N::Decl("z".into(), "y".into())], vec![leaf("& g"), N::Decl("z".into(), "y".into())]];
+        let mut trees: Vec<Vec<N>> = Vec::new();
+        for y in 0..3 {
+            for x in 0..3 {
+                for inner in &inners {
+                    for later in &laters {
+                        for before in [false, true] {
+                            let mut body: Vec<N> = Vec::new();
+                            if before {
+                                body.push(N::Decl("f".into(), "h".into()));
+                            }
+                            body.push(inner.clone());
+                            body.extend(later.clone());
+                            // Y { X { a { ... } } },  Y { a { X { ... } } },  a { Y { X { ... } } }
+                            trees.push(vec![wrap(y, vec![wrap(x, vec![N::Rule("a".into(), body.clone())])])]);
+                            trees.push(vec![wrap(y, vec![N::Rule("a".into(), vec![wrap(x, body.clone())])])]);
+                            trees.push(vec![N::Rule("a, b".into(), vec![wrap(y, vec![wrap(x, body.clone())])])]);
+                            trees.push(vec![wrap(y, vec![leaf("e"), wrap(x, vec![N::Rule("a".into(), body.clone())]), leaf("h")])]);
+                        }
+                    }
+                }
+            }
+        }
+        run_trees(ctx, "at-rule-nesting", "3 x 3 outer at-rule pairs (@media, @supports, unknown) around a style rule in 4 arrangements x 7 inner statements that make the parent gain a following sibling (nested @media / @supports / unknown at-rule, @at-root with 3 queries, a nested rule holding @media) x 3 kinds of later siblings x with / without a declaration before", &trees);
     }
     let g5 = Gen { sels: ctx.pick(1, 3), queries: 7, pairs: false };
     let t5 = g5.lists(5, false, 0, false);
